@@ -7,8 +7,14 @@
    missing order stores a zero order under key 0 (step_ids_refuted; needs a dangling
    reference, which the monitors ref.shard_has_order exclude on implementation states).
    "An update names the latest committed version" is monitored per accepted Store
-   (ver.base_is_latest) and refuted by finding D16 (substring test). *)
-From SaoVerif Require Import Base.Prelude Base.Ints Base.Dec Model.Did Model.Types Model.Monad Model.Bank Model.Select Model.Node Model.Storage Model.Sao Model.Hooks Model.App Model.Spec Proofs.Frame.
+   (ver.base_is_latest) and refuted by finding D16 (substring test).
+
+   "At most one unfinished storage order per data model" is monitored (ids.one_in_flight) and is
+   FALSE of the faithful model (run_one_in_flight_refuted): the model end blocker deletes an
+   expired model without looking at its latest order; if that order is still unfinished (possible
+   only through finding D15: a timeout check that gave up) a new Store of the same data id opens
+   a second one. Recorded as a consequence of D15 (scenario d15-two-in-flight). *)
+From SaoVerif Require Import Base.Prelude Base.Ints Base.Dec Model.Did Model.Types Model.Monad Model.Bank Model.Select Model.Node Model.Storage Model.Sao Model.Hooks Model.App Model.Spec Proofs.Frame Model.Inv Proofs.Escrow.
 From RecordUpdate Require Import RecordUpdate.
 Import RecordSetNotations.
 
@@ -18,7 +24,7 @@ Theorem C16_step_ids_partial : forall cx s op,
   shard_count s <= shard_count (fst (step cx s op)) /\
   (forall id o, orders (fst (step cx s op)) !! id = Some o -> orders s !! id = None -> order_count s <= id) /\
   (forall id sh, shards (fst (step cx s op)) !! id = Some sh -> shards s !! id = None -> shard_count s <= id).
-Proof. exact step_ids_partial. Qed.
+Proof. first [exact step_ids_partial | apply step_ids_partial]. Qed.
 Print Assumptions C16_step_ids_partial.
 
 Theorem C16_step_ids_refuted :
@@ -27,5 +33,16 @@ Theorem C16_step_ids_refuted :
        shard_count s <= shard_count (fst (step cx s op)) /\
        (forall id o, orders (fst (step cx s op)) !! id = Some o -> orders s !! id = None -> order_count s <= id) /\
        (forall id sh, shards (fst (step cx s op)) !! id = Some sh -> shards s !! id = None -> shard_count s <= id)).
-Proof. exact step_ids_refuted. Qed.
+Proof. first [exact step_ids_refuted | apply step_ids_refuted]. Qed.
 Print Assumptions C16_step_ids_refuted.
+
+(* at most one unfinished order per data model is FALSE of the model - the model end blocker deletes an expired model whose order is still unfinished (consequence of D15) and a new Store of the same data id opens a second one *)
+Theorem C16_run_one_in_flight_refuted : exists tr s,
+  trace_ok tr /\ G s /\ Inv_ids s /\ orders s = ∅ /\ Inv_one_in_flight s /\ ~ Inv_one_in_flight (run tr s).
+Proof. first [exact run_one_in_flight_refuted | apply run_one_in_flight_refuted]. Qed.
+Print Assumptions C16_run_one_in_flight_refuted.
+
+Theorem C16_step_one_in_flight_refuted : exists cx s op,
+  not_from_escrow op /\ G s /\ Inv_order_escrow s /\ Inv_one_in_flight s /\ ~ Inv_one_in_flight (fst (step cx s op)).
+Proof. first [exact step_one_in_flight_refuted | apply step_one_in_flight_refuted]. Qed.
+Print Assumptions C16_step_one_in_flight_refuted.
